@@ -154,14 +154,29 @@ func c16CanonDoc(doc []byte, cte bool, _ *configuration.Configuration) string {
 }
 
 // c16RefStream: small documents exercising the marker/reference tables, valid and invalid
-// (dangling forward reference without any marker, duplicate marker, forward and backward references).
+// (dangling forward reference without any marker, duplicate marker, forward and backward references), and chunked strings that
+// leave a validator holding part of a character (chunk ending inside one, stream given up inside one) or that only a stale part could complete.
 func c16RefStream(c *fw.Ctx) ([]ev.Event, string) {
 	str := func(x string) ev.Event { return ev.Event{K: ev.STRARR, AT: 1, S: x} }
 	wrap := func(e ...ev.Event) []ev.Event {
 		return append(append([]ev.Event{{K: ev.BD}, {K: ev.VER}}, e...), ev.Event{K: ev.ED})
 	}
 	id := []byte{byte('a' + c.Rng.Intn(3))}
-	switch c.Rng.Intn(6) {
+	abegin := ev.Event{K: ev.ABEGIN, AT: 1}
+	chunk := func(n uint64, more bool) ev.Event { return ev.Event{K: ev.CHUNK, U: n, Flag: more} }
+	data := func(b ...byte) ev.Event { return ev.Event{K: ev.DATA, B: b} }
+	switch c.Rng.Intn(10) {
+	case 6: // the validator is left holding the first bytes of a character
+		return wrap(abegin, chunk(2, true), data(0xe2, 0x82), chunk(1, false), data(0xac)), "invalid-utf8-chunk-ends-mid-character"
+	case 7:
+		if c.Rng.Intn(2) == 0 {
+			return wrap(abegin, chunk(3, false), data('a', 'b', 'c')), "chunked-string"
+		}
+		return wrap(abegin, chunk(6, false), data('x', 0xe2), data(0x82, 0xac, 'y', 'z')), "chunked-string"
+	case 8:
+		return wrap(abegin, chunk(1+uint64(c.Rng.Intn(2)), false), data(0xac), data('a')), "invalid-utf8-continuation-byte-first"
+	case 9: // given up inside a character
+		return []ev.Event{{K: ev.BD}, {K: ev.VER}, abegin, chunk(3+uint64(c.Rng.Intn(3)), false), data(0xe2, 0x82)}, "unfinished-chunked-string"
 	case 0:
 		return wrap(ev.Event{K: ev.LIST}, ev.Event{K: ev.REF, B: id}, ev.Event{K: ev.PINT, U: 1}, ev.Event{K: ev.END}), "dangling-forward-ref"
 	case 1:
@@ -397,7 +412,7 @@ func runC16(c *fw.Ctx, idx int) {
 		} else {
 			e.PrepareToEncode(&buf)
 		}
-		fi, p := ev.Replay(e, log)
+		fi, p := replayAuto(e, log)
 		o := c16Outcome{Out: docString(buf.Bytes(), cte)}
 		if fi >= 0 {
 			o.Err = fmt.Sprintf("event %d: %v", fi, p)
@@ -424,7 +439,7 @@ func runC16(c *fw.Ctx, idx int) {
 	}
 	rulesWith := func(r *rules.RulesEventReceiver, rec *ev.Recorder, log []ev.Event) c16Outcome {
 		rec.Reset()
-		fi, p := ev.Replay(r, log)
+		fi, p := replayAuto(r, log)
 		o := c16Outcome{Out: ev.LogString(rec.Log)}
 		if fi >= 0 {
 			o.Err = fmt.Sprintf("event %d: %v", fi, p)
@@ -544,7 +559,7 @@ func runC16(c *fw.Ctx, idx int) {
 			if kind == 2 {
 				reused = encodeWith(enc, log)
 				fresh = encodeWith(newEncoder(), log)
-				if strings.Contains(desc, "corrupted-") || (kind == 2 && (strings.Contains(desc, "dangling") || strings.Contains(desc, "duplicate") || strings.Contains(desc, "wrong-count"))) {
+				if strings.Contains(desc, "corrupted-") || (kind == 2 && (strings.Contains(desc, "dangling") || strings.Contains(desc, "duplicate") || strings.Contains(desc, "wrong-count") || strings.Contains(desc, "invalid-utf8"))) {
 					// An encoder driven with an invalid stream (no validator in front) is outside its contract:
 					// the operation only serves to disturb the instance's state and is not compared.
 					c.Inc("dontcare.invalid_stream_into_bare_encoder")
